@@ -44,7 +44,10 @@ def raw_app(iface, r, counter, as_list=False):
 
     async def aapp(scope, receive, send):
         counter.append(1)
-        await send({"type": "http.response.start", "status": r["status"], "headers": [(n.encode(), v.encode()) for n, v in hdrs]})
+        hs = [(n.encode(), v.encode()) for n, v in hdrs]
+        # as_list: "gen" a one-shot iterator, "tuple" tuples - ASGI only asks for an iterable of two-item iterables
+        hs = iter(hs) if as_list == "gen" else (tuple(tuple(h) for h in hs) if as_list == "tuple" else hs)
+        await send({"type": "http.response.start", "status": r["status"], "headers": hs})
         if not chunks:
             await send({"type": "http.response.body", "body": b"", "more_body": False})
         for i, c in enumerate(chunks):
@@ -124,14 +127,14 @@ def run(ctx):
         want = {"status": st["cur"]["status"], "headers": want_headers, "body": b"".join(CHUNK[c] for c in st["cur"]["body"]), "exc": None}
         dup = any(r["headers"][i][0] == r["headers"][j][0] != "set-cookie" for i in range(len(r["headers"])) for j in range(i))
         for iface in ("wsgi", "asgi"):
-            for as_list in ((False, True) if iface == "wsgi" else (False,)):
+            for as_list in ((False, True) if iface == "wsgi" else (False, "gen", "tuple")):
                 counter = []
                 app = wrap(iface, raw_app(iface, r, counter, as_list), stack)
                 o = observe(iface, app)
                 ctx.count()
                 ctx.traces_validated += 1
                 case = {"inner": "raw app: status %d, headers %s, %d chunks%s" % (r["status"], [(h[0], ", ".join(h[1])) for h in r["headers"]],
-                                                                                  len(r["body"]), " (list)" if as_list else ""),
+                                                                                  len(r["body"]), (" (%s)" % ("list" if as_list is True else as_list)) if as_list else ""),
                         "iface": iface, "stack": stack}
                 bare = observe(iface, raw_app(iface, r, [], as_list))
                 edited = "edit" in stack
